@@ -103,6 +103,8 @@ def layouts(ctx):
     L.append((32 * 2 * K, [(2 * i * K, (2 * i + 1) * K) for i in range(32)]))    # exactly one full page
     L.append((33 * 2 * K, [(2 * i * K, (2 * i + 1) * K) for i in range(33)]))    # page + 1
     L.append((64 * 2 * K, [(2 * i * K, (2 * i + 1) * K) for i in range(64)]))    # exactly two full pages
+    for nx in ((2048, 2100) if ctx.quick else (2047, 2048, 2049, 2100, 4100, 6500)):              # tens of FIEMAP pages
+        L.append((nx * 2 * K + 100, [(2 * i * K, (2 * i + 1) * K) for i in range(nx)] + [(nx * 2 * K, nx * 2 * K + 100)]))
     for _ in range(12 if ctx.quick else 120):
         n = rng.choice([1, 2, 3, 5, 31, 32, 33, 50, 65, 100])
         pos, segs = rng.choice([0, K, 5 * K]), []
@@ -237,7 +239,32 @@ def run(ctx):
                                   dict(kind=what, length=length, segments=segs, fiemap=ext3, seek=sk, impl=a, model=m,
                                        correspondence=f'libfs::{what} vs the Lean model run over an independent FIEMAP/SEEK reading'),
                                   f'model/implementation disagree for {what} on layout len={length} nsegs={len(segs)}', no_input=True)
-    ctx.cov['rule'] = ('merge: exhaustive well-formed lists over a small offset universe + random lists (long, shared flags, malformed, near u64::MAX); '
+        # (3) a data/hole search that FAILS (EINVAL on a file system without SEEK_DATA, EIO, …) must surface as an error: it
+        # must never be read as "the rest of the file is a hole" (only ENXIO means that)
+        import subprocess
+        from .. import scen
+        E = scen.ERRNO
+        K = 4096
+        p = f'{d}/seekfault'
+        segs = [(10 * K, 11 * K), (100 * K, 102 * K), (200 * K, 200 * K + 777)]
+        fsutil.make_file(p, 256 * K, segs, seed=99)
+        for nth in range(1, 9 if ctx.quick else 13):
+            for en in ('EINVAL', 'EIO') if ctx.quick else ('EINVAL', 'EIO', 'EBADF', 'ENOMEM'):
+                tf, pf = f'{d}/trace', f'{d}/plan'
+                open(pf, 'w').write(f'fail lseek seekfault {nth} {E[en]}\ntimeout 30000\n')
+                pr = subprocess.run([core.SUP, '-o', tf, '-p', pf, '--', probe], input=f'file-segments {p}\n', capture_output=True, text=True, timeout=90, env=core.ENV)
+                a = pr.stdout.strip().split('\n')[-1] if pr.stdout.strip() else 'no-answer'
+                trace, _ = scen.parse_trace(tf)
+                fired = any(e.get('inj') for e in trace)
+                ctx.count('seek_fault.' + ('fired' if fired else 'not_fired')); ctx.count('seek_fault.answer.' + a.split()[0])
+                ctx.case(('seek-fault', nth, en), fired)
+                if fired and a.startswith('ok'):
+                    rs = [tuple(int(v) for v in t.split('-')) for t in a.split()[1:]]
+                    nz = fsutil.nonzero_outside(p, rs)
+                    if nz is not None:
+                        ctx.violation(f'seek-fault-{nth}-{en}.json', dict(kind='next_sparse_segments', plan=f'fail lseek {nth} {en}', segments=segs, impl=a),
+                                      f'libfs hides data: the {nth}th lseek failed with {en} and next_sparse_segments still answered {a[:80]!r}: byte {nz} is data outside every reported range')
+    ctx.cov['rule'] = ('(files: + layouts of 2048..2100 (thorough 6500) extents; + every lseek of a segment search failing with EINVAL/EIO) merge: exhaustive well-formed lists over a small offset universe + random lists (long, shared flags, malformed, near u64::MAX); '
                        'files: fixed boundary layouts (0, 1, 32, 33, 64, 70 extents; data at start/end; odd sizes) + random layouts on ext4. '
                        'distinct = distinct input; non-trivial = at least two extents (merge) / at least one data segment (files)')
 
